@@ -467,7 +467,7 @@ def _inline(f: FunctionInfo, e, depth=0):
     defs = [n.value for n in own_nodes(f.node) if isinstance(n, ast.Assign) and len(n.targets) == 1 and
             isinstance(n.targets[0], ast.Name) and n.targets[0].id == e.id]
     if len(defs) == 1 and e.id not in f.params:
-        return defs[0]
+        return _inline(f, defs[0], depth + 1)
     return e
 
 
@@ -537,7 +537,9 @@ def _check_index_predicate(rep: Report, checker: FunctionInfo):
         got = _abs_eval(t, loopvar, cls)
         if got is None:
             raise AnalysisError(f"{checker.ref}: index predicate {norm(t)} not understood by the abstract evaluator")
-        if got != want:
+        if got == "mixed":
+            bad.append(f"{cls}: the test is true for some values of the class and false for others, expected {want} throughout")
+        elif got != want:
             bad.append(f"{cls}: rejects={got}, expected {want}")
     rep.decide(not bad, rule, checker, test[0], text=f"index predicate: {norm(t)}",
                what="the index test rejects exactly the values that are not non-negative integers",
@@ -556,21 +558,27 @@ def _abs_eval(e, var, cls) -> Optional[bool]:
         vals = [_abs_eval(v, var, cls) for v in e.values]
         if isinstance(e.op, ast.Or):
             # short-circuit: a type test that is already true guards the comparison on strings
+            mixed = False
             for v in vals:
                 if v is True:
                     return True
                 if v is None:
                     return None
-            return False
+                if v == "mixed":
+                    mixed = True
+            return "mixed" if mixed else False
+        mixed = False
         for v in vals:
             if v is False:
                 return False
             if v is None:
                 return None
-        return True
+            if v == "mixed":
+                mixed = True
+        return "mixed" if mixed else True
     if isinstance(e, ast.UnaryOp) and isinstance(e.op, ast.Not):
         v = _abs_eval(e.operand, var, cls)
-        return None if v is None else (not v)
+        return v if v in (None, "mixed") else (not v)
     if isinstance(e, ast.Call) and isinstance(e.func, ast.Name) and e.func.id == "isinstance" and len(e.args) == 2 \
             and isinstance(e.args[0], ast.Name) and e.args[0].id == var:
         ty = norm(e.args[1])
@@ -611,7 +619,7 @@ def _abs_eval(e, var, cls) -> Optional[bool]:
                 res.add({ast.Lt: v < c, ast.LtE: v <= c, ast.Gt: v > c, ast.GtE: v >= c, ast.Eq: v == c, ast.NotEq: v != c}[type(op)])
             if len(res) == 1:
                 return res.pop()
-            return None
+            return "mixed"
     return None
 
 
